@@ -4,6 +4,7 @@ import (
 	"fmt"
 	"sort"
 	"strings"
+	"time"
 
 	"verif/engine/smt"
 )
@@ -146,10 +147,21 @@ func (p *Path) checkWith(ts ...*smt.Term) smt.Result {
 		p.S.Send("(assert " + r + ")\n")
 	}
 	p.Checks++
-	res := p.S.Check()
+	var res smt.Result
+	if pastDeadline() {
+		res = smt.Unknown // the wall-clock budget of the run is used up: no further solver time
+		p.S.LastErr = "wall-clock budget of the check used up"
+	} else {
+		res = p.S.Check()
+	}
 	p.S.Send("(pop 1)\n")
 	return res
 }
+
+// RunDeadline: past this instant no path asks the solver any more (every query answers unknown).
+var RunDeadline time.Time
+
+func pastDeadline() bool { return !RunDeadline.IsZero() && time.Now().After(RunDeadline) }
 
 // modelWith is checkWith that also returns a model when sat.
 func (p *Path) modelWith(ts ...*smt.Term) (smt.Result, map[string]uint64, map[string]map[string]uint64) {
@@ -188,7 +200,10 @@ func (p *Path) modelWith(ts ...*smt.Term) (smt.Result, map[string]uint64, map[st
 		p.S.Send("(assert " + r + ")\n")
 	}
 	p.Checks++
-	res := p.S.Check()
+	res := smt.Unknown
+	if !pastDeadline() {
+		res = p.S.Check()
+	}
 	var model map[string]uint64
 	var uf map[string]map[string]uint64
 	if res == smt.Sat {
